@@ -258,7 +258,73 @@ def check(ctx: Ctx, frames: list[tuple[int, bytes]], tail: Any, tail_prefix: int
                     "delivered": r["n_delivered"]})
 
 
+def interrupted_callback(ctx: Ctx) -> None:
+    """KeyboardInterrupt / SystemExit raised inside the handling of a frame (Ctrl-C or sys.exit() in an application callback): asyncio re-raises those
+    two out of the loop WITHOUT closing the transport (`except (SystemExit, KeyboardInterrupt): raise`), and an application that catches them
+    and runs the loop again - to disconnect gracefully - gets further data_received calls on the same helper.  The frame whose handling was
+    interrupted was handed over; every frame is still handed over exactly once, in order, unaltered (later ones when the next bytes arrive)."""
+    from vf import refcodec, wire
+
+    res = ctx.res
+    rng = ctx.rng
+    idx = 0
+    for exc_type in (KeyboardInterrupt, SystemExit):
+        for n_frames in (2, 3, 6):
+            for at in range(n_frames):
+                for cut_kind in ("one-chunk", "frame-per-chunk", "interrupted-frame-split", "bytewise"):
+                    idx += 1
+                    if not ctx.mine(7000 + idx):
+                        continue
+                    frames = [(25 + (k % 3), payload(rng.choice([0, 1, 5, 40, 200]), k)) for k in range(n_frames)]
+                    blobs = [refcodec.enc_plain(t, p) for t, p in frames]
+                    stream = b"".join(blobs)
+                    if cut_kind == "one-chunk":
+                        chunks = [stream]
+                    elif cut_kind == "frame-per-chunk":
+                        chunks = list(blobs)
+                    elif cut_kind == "bytewise":
+                        chunks = [stream[i:i + 1] for i in range(len(stream))]
+                    else:
+                        start = sum(len(b) for b in blobs[:at])
+                        mid = start + max(1, len(blobs[at]) // 2)
+                        chunks = [c for c in (stream[:mid], stream[mid:]) if c]
+                    h, c, t, d = wire.make_plain()
+                    d.start()
+                    fired = []
+                    orig = c.process_packet
+
+                    def pp(msg_type: int, data: Any, orig: Any = orig) -> None:
+                        orig(msg_type, data)
+                        if len(c.packets) == at + 1 and not fired:
+                            fired.append(1)
+                            raise exc_type()
+
+                    c.process_packet = pp  # type: ignore[method-assign]
+                    escaped = []
+                    for ch in chunks + [refcodec.enc_plain(7, b"")]:      # (a last frame arriving later, e.g. the device's next ping)
+                        c.call_index += 1
+                        try:
+                            h.data_received(ch)
+                        except (KeyboardInterrupt, SystemExit) as e:
+                            escaped.append(type(e).__name__)      # the application catches it and keeps the loop running
+                        except Exception as e:  # noqa: BLE001
+                            escaped.append(repr(e))
+                            break
+                    res.evaluations += 1
+                    res.count("workload/interrupted-callback")
+                    res.sig("interrupted-callback", exc_type.__name__, n_frames, at, cut_kind)
+                    got = [(ty, bytes(pl)) for ty, pl, _ in c.packets]
+                    want = frames + [(7, b"")]
+                    case = {"interrupted_callback": exc_type.__name__, "frames": n_frames, "interrupt_at": at, "cuts": cut_kind}
+                    if got != want or c.fatal:
+                        dup = len(got) - len(set(range(len(got)))) if False else None
+                        res.violation("C01/interrupted-callback/sequence", f"{exc_type.__name__} raised while frame #{at} of {n_frames} was being handled ({cut_kind}); "
+                                      f"handed over afterwards: {[(ty, len(pl)) for ty, pl in got]}, the device sent {[(ty, len(pl)) for ty, pl in want]}; "
+                                      f"fatal: {[repr(f[0]) for f in c.fatal][:1]}", case)
+
+
 def shard(ctx: Ctx) -> None:
+    interrupted_callback(ctx)
     rng = ctx.rng
     idx = 0
     kinds = wire.BUF_KINDS
